@@ -184,6 +184,22 @@ def showAssoc (l : List (String × String)) : String :=
   let sorted := (l.toArray.qsort (fun a b => a.1 < b.1)).toList
   "{" ++ String.intercalate "," (sorted.map fun (k, v) => k ++ "=" ++ v) ++ "}"
 
+/-- the inputs of a `validate` op; `none` = the envelope does not parse -/
+def parseVOp (st : St) (j : Json) : Option (Envelope × Decoder × List Mapping × Regex) :=
+  -- array envelopes: the go-did verdict per presented entry (data); the model says whether the envelope parses
+  let entries : List J := (jArr j "entries").map (fun e => if e.getStr?.toOption == some "vp" then J.str "vp" else J.null)
+  let parsedEntries := parseArrayEnvelope (fun e => match e with | .str _ => some {} | _ => none) entries
+  if jHas j "entries" && !parsedEntries.isOk then none else
+  if jBool j "envErr" then none else
+  let envJ := toJ (jObj j "env")
+  let maps := ((jArr j "maps").map toJ).toArray
+  let env : Envelope := { asInterface := envJ,
+                          presentations := (jArr j "pres").map (fun p => (p.getArr?.toOption.getD #[]).toList.map (parsePresCred st)),
+                          signerOK := (jArr j "signer").map (fun b => b.getBool?.toOption.getD false) }
+  let decode := decoderOf (buildDecodeTable envJ maps (jArr j "decode"))
+  let sub := (jArr j "sub").map parseMapping
+  some (env, decode, sub, reOf (st.re ++ (jArr j "re").filterMap parseRe))
+
 def step (st : St) (j : Json) : St × List String :=
   match jStr j "op" with
   | "reject" => ({ st with live := false }, ["reject"])
@@ -196,23 +212,58 @@ def step (st : St) (j : Json) : St × List String :=
   | "build" =>
     (st, [showBuild (build cfg (reOf st.re) st.pd ((jArr j "wallets").map (walletOf st)))])
   | "validate" =>
-    -- array envelopes: the go-did verdict per presented entry (data); the model says whether the envelope parses
-    let entries : List J := (jArr j "entries").map (fun e => if e.getStr?.toOption == some "vp" then J.str "vp" else J.null)
-    let parsedEntries := parseArrayEnvelope (fun e => match e with | .str _ => some {} | _ => none) entries
-    if jHas j "entries" && !parsedEntries.isOk then (st, ["validate envelope-err"]) else
-    if jBool j "envErr" then (st, ["validate envelope-err"]) else
-    let envJ := toJ (jObj j "env")
-    let maps := ((jArr j "maps").map toJ).toArray
-    let env : Envelope := { asInterface := envJ,
-                            presentations := (jArr j "pres").map (fun p => (p.getArr?.toOption.getD #[]).toList.map (parsePresCred st)),
-                            signerOK := (jArr j "signer").map (fun b => b.getBool?.toOption.getD false) }
-    let decode := decoderOf (buildDecodeTable envJ maps (jArr j "decode"))
-    let sub := (jArr j "sub").map parseMapping
-    let line := match validate cfg (reOf (st.re ++ (jArr j "re").filterMap parseRe)) decode st.pd env sub with
-      | .ok m => "validate ok " ++ showAssoc (m.map fun (k, c) => (k, c.name))
-      | .err e => "validate err:" ++ e
-      | .panic s => "validate panic:" ++ s
-    (st, [line])
+    match parseVOp st j with
+    | none => (st, ["validate envelope-err"])
+    | some (env, decode, sub, re) =>
+      let line := match validate cfg re decode st.pd env sub with
+        | .ok m => "validate ok " ++ showAssoc (m.map fun (k, c) => (k, c.name))
+        | .err e => "validate err:" ++ e
+        | .panic s => "validate panic:" ++ s
+      (st, [line])
+  | "consumer" =>
+    -- a scripted session of the REAL PEXConsumer (harness: auth/api/iam leg) on the inputs of a validate op:
+    -- two required definitions (organization: the case's definition, user: the same definition under another id)
+    match parseVOp st j with
+    | none => (st, ["consumer envelope-err"])
+    | some (env, decode0, sub, re) =>
+      -- go-did contract: decoding a value of the envelope yields the credential the envelope's presentation holds
+      -- (identified by Raw()); the view of that credential is the one supplied for the presentation
+      let presCreds := env.presentations.flatten
+      let decode : Decoder := fun v f => (decode0 v f).map fun d =>
+        { d with cred := d.cred.map fun c => match presCreds.find? (fun x => x.raw == c.raw) with | some full => full | none => c }
+      let idO := jStr j "defId"
+      let pdO : PD := { st.pd with id := idO }
+      let pdU : PD := { st.pd with id := idO ++ "-u" }
+      let req : Required := [(.organization, pdO), (.user, pdU)]
+      let ful (c : Consumer) (order : Required) (id : String) : Consumer × String :=
+        match c.fulfill cfg re decode order { definitionId := id, descriptorMap := sub } env with
+        | .ok c' => (c', "ok")
+        | r => (c, r.cls)
+      let showNext (c : Consumer) : String :=
+        match c.next with | none => "none" | some (.organization, _) => "organization" | some (.user, _) => "user"
+      let c0 := newPEXConsumer req
+      let n0 := showNext c0
+      let (c1, rOther) := ful c0 req (idO ++ "-other")
+      let (c2, r1) := ful c1 req idO
+      let n1 := showNext c2
+      let (c3, rAgain) := ful c2 req.reverse idO
+      let (c4, r2) := ful c3 req.reverse (idO ++ "-u")
+      let n2 := showNext c4
+      let cmR := c4.credentialMap cfg decode [] req
+      let showVals (r : Res Values) : String := match r with
+        | .ok vals => "ok " ++ showAssoc (vals.map fun (k, v) => (k, match v with | some x => renderJ x | none => "null"))
+        | .err e => "err:" ++ e
+        | .panic s => "panic:" ++ s
+      let (cmS, v1, v2) := match cmR with
+        | .ok cm =>
+          (showAssoc (cm.map fun (e : String × Cred) => (e.1, e.2.raw)),
+           showVals (resolveInputDescriptorValues cfg re cm [] [(.organization, pdO)]),
+           showVals (resolveInputDescriptorValues cfg re cm [] req))
+        | .err e => ("err:" ++ e, "-", "-")
+        | .panic s => ("panic:" ++ s, "-", "-")
+      (st, [s!"consumer next0={n0} other={rOther} f1={r1} next1={n1} again={rAgain} f2={r2} next2={n2} cm={cmS} v1={v1} v2={v2}"])
+  | "vpformat" =>
+    (st, ["vpformat " ++ chooseVPFormat Nuts.Facts.C12.vpFormatPreference (jStrs j "supported")])
   | "fields" =>
     let cm := (jArr j "credMap").filterMap fun e =>
       match e with
